@@ -4,6 +4,8 @@ CONSTANTS
   MaxDumps = 1
   ResetOnDump = TRUE
   LimitConsumed = FALSE
+  OwnCtxWhenUnlisted = TRUE
+  AuxCounts = {0, 1}
   Limits = {0, 3, 4}
   PlaceByNamedIndex = TRUE
 INVARIANTS C01 C11 C19
